@@ -74,10 +74,17 @@ def forest_desc(draw, max_top=3, max_depth=3, dashed=True):
         parts = draw(st.lists(st.sampled_from(["Server", "Tools", "optional", "Workstation", "A", "b2"]), min_size=2, max_size=3))
         uid = "-".join(parts)
         vid = "".join(parts)
-        node = draw(variant_node(None, None, vid, 1, 1))
+        # usually childless (the documented case), sometimes with children of its own
+        node = draw(variant_node(uid, None, vid, 1, max_depth if draw(st.integers(0, 2)) == 0 else 1))
         node["uid"] = uid
+
+        def fix(children, parent_uid):
+            for c in children:
+                c["uid"] = "%s-%s" % (parent_uid, c["id"])
+                fix(c["children"], c["uid"])
+        fix(node["children"], uid)
         used_uids = set(n["uid"] for n in all_nodes(tops))
-        if uid not in used_uids and vid not in set(t["id"] for t in tops):
+        if not (used_uids & set(n["uid"] for n in all_nodes([node]))) and vid not in set(t["id"] for t in tops):
             tops.append(node)
     return tops
 
@@ -298,8 +305,11 @@ def labels(desc):
         out.append("label")
     if any(n["type"] == "layered-product" for n in nodes):
         out.append("layered-product-variant")
-    if any(n["uid"] != n["id"] and "-" in n["uid"] and n["uid"].replace("-", "") == n["id"] for n in desc["variants"]):
+    dashed = [n for n in desc["variants"] if n["uid"] != n["id"]]
+    if dashed:
         out.append("dashed-top-uid")
+    if any(n["children"] for n in dashed):
+        out.append("dashed-top-uid-with-children")
     if any(n["paths"] for n in nodes):
         out.append("paths")
     return out
